@@ -9,13 +9,18 @@ package webrtc
 import (
 	"crypto/sha256"
 	"encoding/hex"
+	"errors"
 	"fmt"
+	"io"
 	"regexp"
 	"strings"
 	"sync"
+	"sync/atomic"
 	"testing"
 	"time"
 
+	"github.com/pion/interceptor"
+	"github.com/pion/rtcp"
 	"github.com/pion/rtp"
 )
 
@@ -30,12 +35,45 @@ func vmMime(c string) string {
 	switch c {
 	case "opus":
 		return MimeTypeOpus
-	case "vp9":
+	case "vp9", "vp9p2":
 		return MimeTypeVP9
-	case "h264":
+	case "h264", "h264pm0", "h264high":
 		return MimeTypeH264
+	case "av1":
+		return MimeTypeAV1
 	}
 	return MimeTypeVP8
+}
+
+// vmFmtp is the format of the variant the track asks for ("" = the codec's first registered form)
+func vmFmtp(c string) string {
+	switch c {
+	case "vp9p2":
+		return "profile-id=2"
+	case "h264pm0":
+		return "level-asymmetry-allowed=1;packetization-mode=0;profile-level-id=42001f"
+	case "h264high":
+		return "level-asymmetry-allowed=1;packetization-mode=1;profile-level-id=64001f"
+	}
+	return ""
+}
+
+// vmHeader gives packet seq one of the four header forms of spec/Media.tla (Hdr)
+func vmHeader(seq int, h *rtp.Header) string {
+	form := []string{"plain", "csrc", "ext", "csrc+ext"}[seq%4]
+	if strings.Contains(form, "csrc") {
+		// contributing sources of every shape: zero, small, one bit, ordinary, all ones; one or two of them
+		h.CSRC = []uint32{[]uint32{0, 1, 0x00010000, 0xCAFE0000, 0x11111111, 0xFFFFFFFF}[(seq/4)%6]}
+		if seq%8 >= 4 {
+			h.CSRC = append(h.CSRC, 0xCAFE0000+uint32(seq)) //nolint:gosec
+		}
+	}
+	if strings.Contains(form, "ext") {
+		h.Extension = true
+		h.ExtensionProfile = 0xBEDE
+		_ = h.SetExtension(1+uint8(seq%3), []byte{byte(seq), byte(seq >> 3), byte(seq >> 5)}[:1+seq%3]) //nolint:gosec
+	}
+	return form
 }
 
 func vmAPI(t *testing.T, rtx bool) *API {
@@ -58,13 +96,23 @@ func vmAPI(t *testing.T, rtx bool) *API {
 			{RTPCodecCapability: RTPCodecCapability{MimeType: MimeTypeVP9, ClockRate: 90000, SDPFmtpLine: "profile-id=0"}, PayloadType: 98},
 			{RTPCodecCapability: RTPCodecCapability{MimeType: MimeTypeH264, ClockRate: 90000,
 				SDPFmtpLine: "level-asymmetry-allowed=1;packetization-mode=1;profile-level-id=42e01f"}, PayloadType: 102},
+			{RTPCodecCapability: RTPCodecCapability{MimeType: MimeTypeVP9, ClockRate: 90000, SDPFmtpLine: vmFmtp("vp9p2")}, PayloadType: 100},
+			{RTPCodecCapability: RTPCodecCapability{MimeType: MimeTypeH264, ClockRate: 90000, SDPFmtpLine: vmFmtp("h264pm0")}, PayloadType: 104},
+			{RTPCodecCapability: RTPCodecCapability{MimeType: MimeTypeH264, ClockRate: 90000, SDPFmtpLine: vmFmtp("h264high")}, PayloadType: 112},
+			{RTPCodecCapability: RTPCodecCapability{MimeType: MimeTypeAV1, ClockRate: 90000}, PayloadType: 45},
 		} {
 			if err := me.RegisterCodec(c, RTPCodecTypeVideo); err != nil {
 				t.Fatal(err)
 			}
 		}
 	}
-	return NewAPI(WithMediaEngine(me))
+	// the NACK generator/responder pair of the default configuration: with RTX negotiated the responder
+	// answers a NACK on the repair stream
+	ir := &interceptor.Registry{}
+	if err := ConfigureNack(me, ir); err != nil {
+		t.Fatal(err)
+	}
+	return NewAPI(WithMediaEngine(me), WithInterceptorRegistry(ir))
 }
 
 func vmHash(b []byte) string { h := sha256.Sum256(b); return hex.EncodeToString(h[:8]) }
@@ -97,7 +145,7 @@ func vmRun(t *testing.T, tr *vkTrace, id int, v vmVec) { //nolint:cyclop
 		kind = RTPCodecTypeAudio
 	}
 	trackID, streamID := fmt.Sprintf("track-%d", id), fmt.Sprintf("stream-%d", id)
-	track, err := NewTrackLocalStaticRTP(RTPCodecCapability{MimeType: vmMime(v.Codec)}, trackID, streamID)
+	track, err := NewTrackLocalStaticRTP(RTPCodecCapability{MimeType: vmMime(v.Codec), SDPFmtpLine: vmFmtp(v.Codec)}, trackID, streamID)
 	if err != nil {
 		t.Fatal(err)
 	}
@@ -121,9 +169,21 @@ func vmRun(t *testing.T, tr *vkTrace, id int, v vmVec) { //nolint:cyclop
 			t.Fatal(err)
 		}
 	}
+	go func() { // the application's RTCP read loop on the sender (what lets the NACK responder see requests)
+		b := make([]byte, 1500)
+		for {
+			if _, _, e := rtpSender.Read(b); e != nil {
+				return
+			}
+		}
+	}()
 	var mu sync.Mutex
-	got := 0
+	got, viaRtx := 0, 0
 	var kept []*rtp.Packet
+	var keptRtx []bool
+	var readErrs []string
+	var stopping atomic.Bool
+	defer stopping.Store(true)
 	remoteInfo := make(chan vkM, 4)
 	receiver.OnTrack(func(tk *TrackRemote, _ *RTPReceiver) {
 		if tk.ID() != trackID {
@@ -132,14 +192,31 @@ func vmRun(t *testing.T, tr *vkTrace, id int, v vmVec) { //nolint:cyclop
 		remoteInfo <- vkM{"mime": strings.ToLower(tk.Codec().MimeType), "stream": tk.StreamID(), "track": tk.ID(),
 			"pt": int(tk.PayloadType()), "ssrc": fmt.Sprint(uint32(tk.SSRC()))}
 		for {
-			p, _, err := tk.ReadRTP()
+			p, attrs, err := tk.ReadRTP()
 			if err != nil {
-				return
+				if stopping.Load() || errors.Is(err, io.EOF) || errors.Is(err, io.ErrClosedPipe) {
+					return
+				}
+				// something arrived on this track that is not an RTP packet: the sender wrote none such
+				mu.Lock()
+				readErrs = append(readErrs, err.Error())
+				n := len(readErrs)
+				mu.Unlock()
+				if n > 50 {
+					return
+				}
+
+				continue
 			}
+			isRtx := attrs != nil && attrs.Get(AttributeRtxSsrc) != nil
 			// the application keeps what it was given (a jitter buffer does) and looks at it later
 			mu.Lock()
 			got++
+			if isRtx {
+				viaRtx++
+			}
 			kept = append(kept, p)
+			keptRtx = append(keptRtx, isRtx)
 			mu.Unlock()
 		}
 	})
@@ -161,7 +238,7 @@ func vmRun(t *testing.T, tr *vkTrace, id int, v vmVec) { //nolint:cyclop
 		err = signalPairWithOptions(sender, receiver, withDisableInitialDataChannel(true))
 	}
 	if err != nil {
-		tr.Emit(vkM{"ev": "end", "t": id, "connected": false, "got": 0, "written": 0, "announced": []string{}, "pt": -1, "mime": "", "stream": "", "track": "",
+		tr.Emit(vkM{"ev": "end", "t": id, "connected": false, "got": 0, "written": 0, "asked": 0, "askedForms": 0, "resent": 0, "rtxOn": v.Rtx, "announced": []string{}, "pt": -1, "mime": "", "stream": "", "track": "",
 			"rmime": "", "rstream": "", "rtrack": "", "rpt": -1, "haveRemote": false, "sig": "signal-failed"})
 		return
 	}
@@ -186,8 +263,8 @@ func vmRun(t *testing.T, tr *vkTrace, id int, v vmVec) { //nolint:cyclop
 	}
 	params := rtpSender.GetParameters()
 	pt := -1
-	for _, c := range params.Codecs { // the payload type negotiated for the codec of this track
-		if strings.EqualFold(c.MimeType, vmMime(v.Codec)) {
+	for _, c := range params.Codecs { // the payload type negotiated for the codec (and format) of this track
+		if strings.EqualFold(c.MimeType, vmMime(v.Codec)) && (vmFmtp(v.Codec) == "" || strings.EqualFold(c.SDPFmtpLine, vmFmtp(v.Codec))) {
 			pt = int(c.PayloadType)
 
 			break
@@ -201,12 +278,12 @@ func vmRun(t *testing.T, tr *vkTrace, id int, v vmVec) { //nolint:cyclop
 		if v.Codec == "vp8" { // a VP8 payload descriptor that depacketizers accept
 			payload[0] = 0x10
 		}
-		if err := track.WriteRTP(&rtp.Packet{
-			Header:  rtp.Header{Version: 2, SequenceNumber: uint16(seq), Timestamp: uint32(seq * 3000), Marker: seq%3 == 0}, //nolint:gosec
-			Payload: payload,
-		}); err == nil {
+		hdr := rtp.Header{Version: 2, SequenceNumber: uint16(seq), Timestamp: uint32(seq * 3000), Marker: seq%3 == 0} //nolint:gosec
+		form := vmHeader(seq, &hdr)
+		if err := track.WriteRTP(&rtp.Packet{Header: hdr, Payload: payload}); err == nil {
 			written++
-			tr.Emit(vkM{"ev": "write", "t": id, "rseq": seq, "pt": 0, "ssrc": "", "hash": vmHash(payload), "len": len(payload), "sig": "write"})
+			tr.Emit(vkM{"ev": "write", "t": id, "rseq": seq, "pt": 0, "ssrc": "", "hash": vmHash(payload), "len": len(payload), "rtx": false,
+				"sig": "write(" + form + ")"})
 		}
 		mu.Lock()
 		n := got
@@ -217,12 +294,67 @@ func vmRun(t *testing.T, tr *vkTrace, id int, v vmVec) { //nolint:cyclop
 		time.Sleep(5 * time.Millisecond)
 	}
 	time.Sleep(30 * time.Millisecond)
+	// Retransmit: the receiver asks again for packets it already has (one of each header form at least); with
+	// RTX negotiated the copies come over the repair stream and out of the same TrackRemote
+	asked, askedForms := 0, 0
+	if v.Rtx && connected {
+		mu.Lock()
+		var nacks []rtcp.NackPair
+		var media uint32
+		for _, p := range kept {
+			if len(nacks) < 16 {
+				nacks = append(nacks, rtcp.NackPair{PacketID: p.SequenceNumber})
+				askedForms |= 1 << (p.SequenceNumber % 4)
+				media = p.SSRC
+			}
+		}
+		before := got
+		mu.Unlock()
+		asked = len(nacks)
+		if asked > 0 {
+			_ = receiver.WriteRTCP([]rtcp.Packet{&rtcp.TransportLayerNack{SenderSSRC: 1, MediaSSRC: media, Nacks: nacks}})
+			// TrackRemote.Read looks at the repair stream when it is called, so the reader has to be woken by
+			// further primary packets: the sender keeps writing
+			for i := 0; i < 40; i++ {
+				mu.Lock()
+				n := viaRtx
+				mu.Unlock()
+				if n >= asked {
+					break
+				}
+				seq := 1000 + i
+				payload := make([]byte, 20+rng.Intn(900))
+				_, _ = rng.Read(payload)
+				if v.Codec == "vp8" {
+					payload[0] = 0x10
+				}
+				hdr := rtp.Header{Version: 2, SequenceNumber: uint16(seq), Timestamp: uint32(seq * 3000)} //nolint:gosec
+				form := vmHeader(seq, &hdr)
+				if err := track.WriteRTP(&rtp.Packet{Header: hdr, Payload: payload}); err == nil {
+					written++
+					tr.Emit(vkM{"ev": "write", "t": id, "rseq": seq, "pt": 0, "ssrc": "", "hash": vmHash(payload), "len": len(payload), "rtx": false,
+						"sig": "write(" + form + ")"})
+				}
+				time.Sleep(5 * time.Millisecond)
+			}
+			time.Sleep(30 * time.Millisecond)
+			_ = before
+		}
+	}
 	mu.Lock()
-	for _, p := range kept {
+	for i, p := range kept {
 		tr.Emit(vkM{"ev": "rtp", "t": id, "rseq": int(p.SequenceNumber), "pt": int(p.PayloadType), "ssrc": fmt.Sprint(p.SSRC),
-			"hash": vmHash(p.Payload), "len": len(p.Payload), "sig": "rtp(" + v.Codec + ")"})
+			"hash": vmHash(p.Payload), "len": len(p.Payload), "rtx": keptRtx[i],
+			"sig": fmt.Sprintf("rtp(%s,%s,rtx=%v)", v.Codec, []string{"plain", "csrc", "ext", "csrc+ext"}[int(p.SequenceNumber)%4], keptRtx[i])})
 	}
 	kept = nil
+	resent := viaRtx
+	for _, e := range readErrs {
+		tr.Emit(vkM{"ev": "readerr", "t": id, "rseq": -1, "pt": -1, "ssrc": "", "hash": "", "len": 0, "rtx": false, "err": e,
+			"sig": "readerr(" + v.Codec + ")"})
+	}
+	readErrs = nil
+	stopping.Store(true)
 	mu.Unlock()
 	ri := vkM{"mime": "", "stream": "", "track": "", "pt": -1}
 	haveRemote := false
@@ -234,7 +366,7 @@ func vmRun(t *testing.T, tr *vkTrace, id int, v vmVec) { //nolint:cyclop
 	mu.Lock()
 	n := got
 	mu.Unlock()
-	tr.Emit(vkM{"ev": "end", "t": id, "connected": connected, "got": n, "written": written, "announced": announced, "pt": pt,
+	tr.Emit(vkM{"ev": "end", "t": id, "connected": connected, "got": n, "written": written, "asked": asked, "askedForms": askedForms, "resent": resent, "rtxOn": v.Rtx, "announced": announced, "pt": pt,
 		"mime": strings.ToLower(vmMime(v.Codec)), "stream": streamID, "track": trackID,
 		"rmime": ri["mime"], "rstream": ri["stream"], "rtrack": ri["track"], "rpt": ri["pt"], "haveRemote": haveRemote,
 		"sig": fmt.Sprintf("end(codec=%s,rtx=%v,bundle=%s,offerer=%s)", v.Codec, v.Rtx, v.Bundle, v.Offerer)})
